@@ -38,7 +38,7 @@ def carg(t, spec):
         return f'(AStr {t.s(v)})'
     if kind == 'tid':
         return f'(ATid {t.k(v)})'
-    if kind == 'ident':
+    if kind in ('ident', 'oterm', 'cterm'):
         return f'(AIdent {t.k(v)})'
     return 'AOther'
 
